@@ -26,6 +26,9 @@ func init() {
 var (
 	verifPoolBufs [][]byte // buffers handed back, in order
 	verifPoolSize int
+	// the protocol's message carries an "AgentID" (IPFIX, NetFlow v9, NetFlow v5; the sFlow
+	// datagram carries the agent address from the wire instead)
+	verifAgentInMessage bool
 )
 
 func verifPoolGet(p *sync.Pool) interface{} {
@@ -67,7 +70,9 @@ func verifExporter(i int) *net.UDPAddr {
 	if i%2 == 0 {
 		return &net.UDPAddr{IP: net.IP{192, 0, 2, 1}, Port: 4739}
 	}
-	return &net.UDPAddr{IP: net.IP{0, 0, 0, 0, 0, 0, 0, 0, 0, 0, 0xff, 0xff, 198, 51, 100, 7}, Port: 4739}
+	// the second exporter is an IPv6 host whose last four octets equal the first exporter's IPv4
+	// address: anything keyed on a part of the address only would confuse the two
+	return &net.UDPAddr{IP: net.IP{0x20, 0x01, 0x0d, 0xb8, 0, 0, 0, 0, 0, 0, 0, 0, 192, 0, 2, 1}, Port: 4739}
 }
 
 // datagram kinds
